@@ -7,7 +7,7 @@ import re
 from layout_common import *
 from codec_common import SPELLINGS, canon
 
-GEN = ["EstructParams", "Cp037"]
+GEN = ["EstructParams", "Cp037", "SchemaMakerParams", "NameCleanerParams"]
 RULE = ("random record descriptions (C01's generator with a numeric-rich pool: zoned, signed zoned, COMP-3, binary, X items; OCCURS, OCCURS DEPENDING ON, "
         "REDEFINES at every child position, FILLER) printed as copybooks; an EBCDIC record in which every elementary item holds a valid, position-coded "
         "encoding and 0-3 chosen numeric DISPLAY / COMP-3 occurrences are overwritten with a byte their decoder rejects (0xFA); for EVERY navigation path "
@@ -193,8 +193,9 @@ def build_case(c):
     env = choose_counts(tree, rng)
     total, counters, paths = layout(tree, env)
     paths = with_redefines(tree, paths)
-    if len(paths) > 120:
-        keep = set(rng.sample(range(len(paths)), 120))
+    cap = c.get("cap", 45)
+    if len(paths) > cap:
+        keep = set(rng.sample(range(len(paths)), cap))
         chosen = {tuple(map(tuple, p)) for i, p in enumerate(paths) if i in keep}
         for p in list(chosen):
             for j in range(len(p)):
@@ -206,10 +207,10 @@ def build_case(c):
 
 def inputs(ctx):
     rng = ctx.rng
-    n = 220 if ctx.tier == "quick" else 3000
+    n = 220 if ctx.tier == "quick" else 2000
     for i in range(n):
-        yield "clean", dict(seed=rng.randrange(1 << 30), corrupt=i % 4, neg=False, opts={})
-    m = 25 if ctx.tier == "quick" else 300
+        yield "clean", dict(seed=rng.randrange(1 << 30), corrupt=i % 4, neg=False, opts=dict(max_kids=4) if i % 3 else {})
+    m = 25 if ctx.tier == "quick" else 200
     for i in range(m):
         yield "odo-in-table", dict(seed=rng.randrange(1 << 30), corrupt=i % 2, neg=False, opts=dict(odo_in_table=True, allow_redef=False))
         yield "negative-index", dict(seed=rng.randrange(1 << 30), corrupt=0, neg=True, opts=dict(allow_odo=False))
